@@ -2,6 +2,8 @@
      kind 1  calls of the handlers that authorize before anything else
      kind 3  calls of Write and ActionSearch (they resolve the store's model first)
      kind 2  ListStores (all pages; name filters) and CreateStore
+     kind 6  faults: the k-th authorization check of a call fails, or the request context is
+             cancelled when it is issued: PROP when a call the (faulted) decision denies is let through
      kind 5  probes: an unauthorised caller sends the same request to a store with a model, a
              store without model and a store id that never existed (model id: default / unknown /
              malformed): PROP when the answer depends on, or reveals, the target store's state
@@ -142,13 +144,17 @@ let lists_record claims_state client stores grants la lists create backend =
   let create_m = match method_of_bytes (bytes_to_coq "CreateStore") with Some m -> m | None -> raise (Missing "CreateStore") in
   List.iter (fun l ->
     match as_list l with
-    | [name; cls; ids; seen] ->
+    | [name; cls; ids; seen; from] ->
       let cls = as_int cls in
+      let from = as_int from in
       let obs = List.map s_of (as_list ids) in
       let seen = String.concat "," (List.map s_of (as_list seen)) in
-      let where = Printf.sprintf "ListStores(name=%S)" (s_of name) in
+      let where = if from < 0 then Printf.sprintf "ListStores(name=%S)" (s_of name)
+        else Printf.sprintf "ListStores(name=%S, continuation token forged to denote position %d of the id-ordered %s)" (s_of name) from
+            (if s_of backend = "sqlite" then "live stores" else "filtered list") in
       let model =
-        if s_of backend = "sqlite" then list_stores_sqlite g la cl (cb name) all
+        if from >= 0 then list_stores_from (s_of backend = "sqlite") g la cl (cb name) all (nat_of_int from)
+        else if s_of backend = "sqlite" then list_stores_sqlite g la cl (cb name) all
         else list_stores g la cl (cb name) all in
       let show = function None -> "forbidden" | Some l -> "[" ^ String.concat " " l ^ "]" in
       let m = match model with LSDenied -> None | LSStores l -> Some (sorted_ids l) in
@@ -229,6 +235,72 @@ let probe_record claims_state client stores grants la handler meth probes =
   v.prop <- List.rev v.prop; v.diff <- List.rev v.diff; v.known_model <- List.rev v.known_model;
   finish v
 
+(* kind 6: the k-th authorization check of the call fails / the request context is cancelled
+   when it is issued *)
+let dec_lookups lookups =
+  List.map (fun l -> match as_list l with
+      | [k; m] -> (match as_int k with 0 -> LTypeNotFound | 1 -> LNoRelation | _ -> LModule (cb m))
+      | _ -> failwith "lookup entry") (as_list lookups)
+
+let fault_decisions g cl h meth sid lookups k from =
+  (* (decision with the fault, decision without, does the k-th check get issued) *)
+  if h = "Write" then begin
+    let ls = dec_lookups lookups in
+    let fires = match extract_modules ls [] with
+      | MErr -> false
+      | MMods ms -> (match method_of_bytes (bytes_to_coq "Write") with
+          | Some m -> fault_fires g (n_of_int k) cl m sid ms | None -> false) in
+    (is_allow (write_authorize_fault g (n_of_int k) from cl sid ls), is_allow (write_authorize g cl sid ls), fires)
+  end else match method_of_bytes (cb meth) with
+    | None -> raise (Missing ("API method " ^ s_of meth ^ " is not an apimethod constant"))
+    | Some m -> (is_allow (authorize_fault g (n_of_int k) from cl m sid []), is_allow (authorize g cl m sid []),
+                 fault_fires g (n_of_int k) cl m sid [])
+
+let fault_record claims_state client stores grants la faults lsfaults backend =
+  let (cl, all, g, la) = decode_common claims_state client stores grants la in
+  let v = { prop = []; diff = []; known_model = [] } in
+  List.iter (fun c ->
+    match as_list c with
+    | [handler; meth; store; lookups; k; from; cls; code; fired; nchecks] ->
+      let h = s_of handler and sid = cb store in
+      let k = as_int k and from = as_bool from and cls = as_int cls and code = as_int code in
+      let fired = as_bool fired in
+      let (with_f, without_f, fires) = fault_decisions g cl h meth sid lookups k from in
+      let passed = cls <> 1 in
+      let where = Printf.sprintf "%s on %s, %s authorization check #%d (the call issued %d)" h (s_of store)
+          (if from then "request context cancelled at" else "injected failure of") k (as_int nchecks) in
+      if fired && passed && not with_f then
+        v.prop <- (Printf.sprintf "an error while deciding did not deny the call: %s: the call was let through (class %d code %d); without the fault the control store %s it"
+                     where cls code (if without_f then "authorizes" else "does NOT authorize")) :: v.prop
+      else if fired <> fires then
+        v.diff <- (Printf.sprintf "%s: the model says check #%d is %s, the implementation %s it" where k
+                     (if fires then "issued" else "not issued") (if fired then "issued" else "did not issue")) :: v.diff
+      else if with_f <> passed then
+        v.diff <- (Printf.sprintf "%s: model %s, implementation %s (class %d code %d)" where
+                     (if with_f then "allows" else "denies") (if passed then "let the call through" else "answered forbidden") cls code) :: v.diff
+    | _ -> v.diff <- "malformed fault entry" :: v.diff) (as_list faults);
+  List.iter (fun c ->
+    match as_list c with
+    | [k; from; cls; ids; fired] ->
+      let k = as_int k and from = as_bool from and cls = as_int cls and fired = as_bool fired in
+      let obs = List.map s_of (as_list ids) in
+      (* ListStores: check #1 on the system object, #2 ListObjects *)
+      let g' = if k = 1 then with_fault g (fun _ -> true) else g in
+      let la' = if k = 2 || (from && k = 1) then (fun _ -> None) else la in
+      let model = if s_of backend = "sqlite" then list_stores_sqlite g' la' cl [] all else list_stores g' la' cl [] all in
+      let m = match model with LSDenied -> None | LSStores l -> Some (sorted_ids l) in
+      let o = if cls = 1 then None else if cls = 0 then Some obs else Some ["<error>"] in
+      let where = Printf.sprintf "ListStores, %s authorization check #%d" (if from then "request context cancelled at" else "injected failure of") k in
+      if fired && cls = 0 && m = None then
+        v.prop <- (Printf.sprintf "an error while deciding did not deny the call: %s: answered [%s]" where (String.concat " " obs)) :: v.prop
+      else if m <> o && not (cls = 2 && m <> None && from) then
+        v.diff <- (Printf.sprintf "%s: model %s, implementation %s" where
+                     (match m with None -> "forbidden" | Some l -> "[" ^ String.concat " " l ^ "]")
+                     (match o with None -> "forbidden" | Some l -> "[" ^ String.concat " " l ^ "]")) :: v.diff
+    | _ -> v.diff <- "malformed ListStores fault entry" :: v.diff) (as_list lsfaults);
+  v.prop <- List.rev v.prop; v.diff <- List.rev v.diff;
+  finish v
+
 (* Cross-check of extraction: with ORACLE_DUMP=<file> the values the EXTRACTED model computed for
    every case are appended to that file, before any comparison with the implementation:
      kind 1/3  per call: is_allow (authorize / write_authorize), spec_allowed / spec_write_allowed,
@@ -272,8 +344,11 @@ let dump_case id vs =
       | [I k; claims_state; client; stores; grants; la; lists; _create; backend] when k = "2" || k = "4" ->
         let (cl, all, g, la) = decode_common claims_state client stores grants la in
         let per = List.concat_map (fun l -> match as_list l with
-          | [name; _; _; _] ->
-            let model = if s_of backend = "sqlite" then list_stores_sqlite g la cl (cb name) all
+          | [name; _; _; _; from] ->
+            let from = as_int from in
+            let model =
+              if from >= 0 then list_stores_from (s_of backend = "sqlite") g la cl (cb name) all (nat_of_int from)
+              else if s_of backend = "sqlite" then list_stores_sqlite g la cl (cb name) all
               else list_stores g la cl (cb name) all in
             (match model with
              | LSDenied -> [0]
@@ -290,6 +365,13 @@ let dump_case id vs =
               | st :: _ -> (match m with Some m -> b2i (spec_allowed g cl m (cb st) []) | None -> 2)
               | _ -> 9) (as_list answers)
           | _ -> []) (as_list probes)
+      | [I "6"; claims_state; client; stores; grants; la; faults; _lsfaults; _backend] ->
+        let (cl, _all, g, _la) = decode_common claims_state client stores grants la in
+        6 :: List.concat_map (fun c -> match as_list c with
+          | [handler; meth; store; lookups; k; from; _; _; _; _] ->
+            let (a, b, c) = fault_decisions g cl (s_of handler) meth (cb store) lookups (as_int k) (as_bool from) in
+            [b2i a; b2i b; b2i c]
+          | _ -> []) (as_list faults)
       | _ -> [] in
     if nums <> [] then begin
       output_string ch (id ^ " " ^ String.concat " " (List.map string_of_int nums) ^ "\n"); flush ch
@@ -301,6 +383,8 @@ let f id vs =
     match vs with
     | [I "5"; claims_state; client; stores; grants; la; handler; meth; probes] ->
       probe_record claims_state client stores grants la handler meth probes
+    | [I "6"; claims_state; client; stores; grants; la; faults; lsfaults; backend] ->
+      fault_record claims_state client stores grants la faults lsfaults backend
     | [I k; claims_state; client; stores; grants; la; calls] when k = "1" || k = "3" ->
       calls_record claims_state client stores grants la calls
     | [I k; claims_state; client; stores; grants; la; lists; create; backend] when k = "2" || k = "4" ->
